@@ -50,7 +50,7 @@ Definition c01_session_hooks (n head stop : nat) (segdl : Z) : list C1.cid :=
 Definition session_c01_ok (s : C8.st) (o : C8.observed) (t : nat) : bool :=
   match C8.threads s t with
   | Some th =>
-    if C8.t_ok th && C8.is_nil (C8.t_todo th) then
+    if C8.t_ok th && C8.is_nil (C8.t_todo th) && negb (C8.is_entries (C8.t_kind th)) then
       let n := C8.pubhead s (C8.t_pub th) in
       (* in range; a stop that is not below the head never stops the traversal *)
       (C8.t_msg th <=? n) && (C8.t_stop th <=? n) &&
